@@ -253,6 +253,7 @@ PROPS = {
             part('matrix', ACTIONS, 1200, 20000, judge=True, props=['C05'], sub='matrix'),
             part('twins', ACTIONS, 1500, 40000, judge=True, props=['C05'], sub='twins'),
             part('b2b', ACTIONS, 600, 10000, monitors=[M.mon_c05_generic], props=['C05'], sub='b2b'),
+            part('composite', ACTIONS, 400, 8000, monitors=[M.mon_c05_generic], props=['C05'], sub='composite'),
             part('duel', ACTIONS, 300, 6000, monitors=[M.mon_c05_generic], props=['C05'], sub='duel'),
             part('midflight', ACTIONS, 400, 8000, monitors=[M.mon_c05_generic], props=['C05'], sub='midflight'),
         ],
